@@ -48,9 +48,14 @@ contract(P + 'remove_if_complete',
              'retained-means-untouched':
                  'implies(not result, forall(lambda p, i: inpool(self, p, i) == old(inpool(self, p, i)) '
                  'and implies(inpool(self, p, i), at(self, p, i) is old(at(self, p, i))), p="str", i="str"))',
-             'stop-task-noted':
-                 'implies(final(itask) and self.stop_task_id is not None '
+             'stop-task-noted-when-it-succeeded':
+                 'implies(itask.state.status == "succeeded" and self.stop_task_id is not None '
                  'and itask.identity == self.stop_task_id, self.stop_task_finished)',
+             # C43 "the workflow stops after that task SUCCEEDS": no other final status flags it
+             'stop-task-flagged-only-by-its-success':
+                 'implies(self.stop_task_finished and not old(self.stop_task_finished), '
+                 'itask.state.status == "succeeded" and self.stop_task_id is not None '
+                 'and itask.identity == self.stop_task_id)',
          },
          modifies=['all:[*]', 'self.active_tasks_changed', 'self.tasks_removed', 'itask.transient',
                    'self.stop_task_finished',
